@@ -52,6 +52,9 @@ def version(rng):
         ep = str(rng.randint(1, 3)) + ':'
     elif k < 0.5:
         ep = '0' * rng.randint(0, 2) + str(rng.randint(1, 12)) + ':'
+    elif k < 0.56:
+        # large epochs (beyond the small-integer cache of the interpreter, beyond machine words)
+        ep = rng.choice(['', '0']) + str(rng.choice([256, 257, 258, 300, 1000, 65536, 2 ** 31, 2 ** 63, 2 ** 64 + 1, 10 ** 30])) + ':'
     has_rev = rng.random() < 0.6
     up = component(rng, hyphen=has_rev and rng.random() < 0.5, start_digit=True)
     if not has_rev:
